@@ -235,6 +235,8 @@ def install_dates(I, cls):
 
     def m_isoformat(ctx, self):
         ctx.assumed_ext.add("date.isoformat(): 'YYYY-MM-DD' (years 1000..9999: string order = date order)")
+        if all(isinstance(x, int) for x in date_fields(self)):
+            return "%04d-%02d-%02d" % tuple(date_fields(self))
         y, m, d = (zi(x) for x in date_fields(self))
         return IsoStr(y, m, d)
 
@@ -285,8 +287,26 @@ def install_dates(I, cls):
                        "parsing": None, "Interval": interval}
     ext["pendulum.parsing.exceptions"] = {"ParserError": parser_error}
     ext["pendulum.parsing"] = {"exceptions": None}
-    ext["datetime"] = {"date": dt_date, "datetime": cls("datetime", "datetime.datetime", [dt_date]),
-                       "timedelta": Builtin("timedelta", None)}
+    dt_datetime = cls("datetime", "datetime.datetime", [dt_date])
+
+    def strptime(ctx, s, fmt):
+        import datetime as _dt
+        ctx.assumed_ext.add("datetime.strptime on concrete text (evaluated by the real library)")
+        s2 = B.enum_str(s)
+        if not isinstance(s2, str) or not isinstance(fmt, str):
+            raise Unsupported("strptime on symbolic text")
+        try:
+            r = _dt.datetime.strptime(s2, fmt)
+        except ValueError:
+            raise I.raise_exc("ValueError")
+        return mk_date(dt_datetime, r.year, r.month, r.day)
+    dt_datetime.ns["strptime"] = Builtin("strptime", strptime)
+    dt_datetime.ns["date"] = _meth("date", lambda ctx, self: mk_date(dt_date, *date_fields(self)))
+    dt_date.ns["min"] = mk_date(dt_date, 1, 1, 1)
+    dt_date.ns["fromtimestamp"] = Builtin("date.fromtimestamp", lambda ctx, ts: mk_date(dt_date, 1970, 1, 1) if ts == 0 else (_ for _ in ()).throw(Unsupported("fromtimestamp")))
+    dt_date.ns["__str__"] = _meth("__str__", m_isoformat)
+    p_date.ns["__str__"] = _meth("__str__", m_isoformat)
+    ext["datetime"] = {"date": dt_date, "datetime": dt_datetime, "timedelta": Builtin("timedelta", None)}
     ext["calendar"] = {"monthrange": Builtin("calendar.monthrange", monthrange)}
 
 
